@@ -15,7 +15,7 @@ pub fn num(x: f64) -> String {
         return if x > 0.0 { "inf".to_string() } else { "-inf".to_string() };
     }
     if x == 0.0 {
-        return "0p0".to_string();
+        return if x.is_sign_negative() { "-0p0".to_string() } else { "0p0".to_string() };
     }
     let bits = x.to_bits();
     let neg = (bits >> 63) != 0;
@@ -142,4 +142,16 @@ pub fn opt_vec(out: &mut String, v: &Option<Array1<f64>>) {
         }
         None => out.push_str("none"),
     }
+}
+
+/// hex of the UTF-8 bytes (strings travel as one token)
+pub fn hex(s: &str) -> String {
+    let mut out = String::with_capacity(2 * s.len() + 1);
+    if s.is_empty() {
+        out.push('-');
+    }
+    for b in s.bytes() {
+        out.push_str(&format!("{:02x}", b));
+    }
+    out
 }
